@@ -35,6 +35,9 @@ type PropFile struct {
 	// GuardCoverage: every function of the listed packages that touches a field declared
 	// `guarded` must be in the function list (so that its accesses carry the guard obligation)
 	GuardCoverage bool `json:"guard_coverage"`
+	// every function of the loaded repository packages that takes a *proto.Reader and returns an
+	// error must be in the function list (so that a decoder added later cannot escape the sweep)
+	StickyCoverage bool `json:"sticky_coverage"`
 	// ownership scan (own.go): functions that run concurrently with each other and the struct whose
 	// fields they share
 	GoroutineRoots []GoroutineRoot `json:"goroutine_roots"`
@@ -161,6 +164,7 @@ func cmdVerify(args []string) int {
 	if len(pk) == 0 {
 		pk = []string{"./proto", "./compress", ".", "./chpool"}
 	}
+	var stickyFiles map[string]bool
 	for _, v := range pf.Variants {
 		prog, err := LoadProgram(*repo, v.Tags, pk)
 		if err != nil {
@@ -190,6 +194,50 @@ func cmdVerify(args []string) int {
 				if len(pf.Variants) > 1 {
 					o.Name += "@" + v.Tags
 				}
+			}
+		}
+		if pf.StickyCoverage {
+			listed := map[string]bool{}
+			for _, f := range v.Functions {
+				listed[expandKey(f)] = true
+			}
+			var ks []string
+			firstVariant := stickyFiles == nil
+			if firstVariant {
+				stickyFiles = map[string]bool{}
+			}
+			for k, fn := range prog.Funcs {
+				if !strings.HasPrefix(k, repoModule) || fn.Blocks == nil {
+					continue
+				}
+				file := fn.Prog.Fset.Position(fn.Pos()).Filename
+				if firstVariant {
+					stickyFiles[file] = true
+				} else if stickyFiles[file] {
+					continue // same source file as in the first variant: verified there
+				}
+				if _, _, ok := stickySig(fn.Signature, true); !ok {
+					continue
+				}
+				if strings.Contains(k, "_test") || strings.HasSuffix(fn.Prog.Fset.Position(fn.Pos()).Filename, "_test.go") || strings.HasSuffix(fn.Prog.Fset.Position(fn.Pos()).Filename, "_verif.go") {
+					continue
+				}
+				ks = append(ks, k)
+			}
+			sort.Strings(ks)
+			for _, k := range ks {
+				o := &Obligation{Name: "sweep-coverage:" + ShortKey(k), Func: k, Kind: "sweep-coverage", Props: []string{pf.ID},
+					Clause: "every function that takes a *proto.Reader and returns an error is in the verified list"}
+				if len(pf.Variants) > 1 {
+					o.Name += "@" + v.Tags
+				}
+				if listed[k] {
+					o.Trivial, o.Goal = true, tTrue
+				} else {
+					o.Goal = tFalse
+					o.Script = "(assert true)\n(check-sat)\n"
+				}
+				ex.Obls = append(ex.Obls, o)
 			}
 		}
 		if len(pf.GoroutineRoots) > 0 {
